@@ -28,8 +28,12 @@ RULE = ("datasets: plain {flat gzip, flat no-gzip, deep gzip behind the "
         "Deviation menus per request kind (HEAD / plain GET / Range GET): "
         "404, 403, 500, 503, 200 ignoring Range, short/long replies "
         "(declared and truthful lengths), empty body, connection error, "
-        "timeout, connection broken mid-body; bound 1 in quick, 2 in "
-        "thorough. Non-trivial: the run contains a deviation or fetches a "
+        "timeout, connection broken mid-body, and persistent 502/503/504 "
+        "(the same answer to every later request for that path); bound 1 in "
+        "quick, 2 in thorough. After every deviating run the server answers "
+        "truthfully again and every chunk and the info are fetched once more "
+        "through the same accessor object (must equal the fault-free "
+        "result). Non-trivial: the run contains a deviation or fetches a "
         "chunk of a sharded dataset.")
 ASSUMPTIONS = [
     "the server model follows docs/serving-data.rst (gzip_static, flat to "
@@ -40,11 +44,14 @@ ASSUMPTIONS = [
     "an injected 404 is a truthful 'absent' answer: file_exists -> False "
     "and errors are correct there; for sharded datasets any exception "
     "class is accepted (only C18 constrains it)",
+    "recovery is demanded only when the fault did not change which "
+    "accessor class the URL was dispatched to",
 ]
 HOW_TO_READ = ("case: dataset description + url + 'deviations' = {request "
                "index: answer}; the history is: open accessor, fetch every "
                "listed chunk, fetch_file(info), file_exists(info), "
-               "file_exists(nope)")
+               "file_exists(nope); an answer ending in '*' is persistent; "
+               "op ['again', ...] = the re-fetch after the server recovered")
 
 URLS = ["http://sim/ds", "http://sim/ds/", "precomputed://http://sim/ds",
         "https://sim/ds/"]
@@ -155,11 +162,14 @@ def local_reference(root, chunks):
     return ref, type(acc).__name__
 
 
-def run_history(url, chunks, srv, deviations):
-    """execute the fixed history; returns list of (op, outcome)"""
+def run_history(url, chunks, srv, deviations, recover=False):
+    """execute the fixed history; returns list of (op, outcome). With
+    `recover`, the server then answers truthfully again and every chunk and
+    the info are fetched once more through the SAME accessor object."""
     from neuroglancer_scripts import accessor
     srv.log.clear()
     srv.applied.clear()
+    srv.sticky.clear()
     srv.deviations = dict(deviations)
     out = []
     marks = []
@@ -190,17 +200,37 @@ def run_history(url, chunks, srv, deviations):
             out.append((("exists", name), ("error", type(exc).__name__,
                                            str(exc)[:100])))
         marks.append(len(srv.log))
+    if recover:
+        srv.deviations = {}
+        srv.sticky.clear()
+        for key, cc, _ in chunks:
+            try:
+                out.append((("again", key, cc),
+                            ("ok", bytes(acc.fetch_chunk(key, cc)))))
+            except Exception as exc:
+                out.append((("again", key, cc),
+                            ("error", type(exc).__name__, str(exc)[:100])))
+        try:
+            out.append((("again", "info"),
+                        ("ok", bytes(acc.fetch_file("info")))))
+        except Exception as exc:
+            out.append((("again", "info"),
+                        ("error", type(exc).__name__, str(exc)[:100])))
     return out, list(srv.log), marks
+
+
+PERSISTENT = ["502*", "503*", "504*"]
 
 
 def menu_for(point):
     method, path, rng = point
     if method == "HEAD":
-        return ["404", "403", "500", "503", "connection-error", "timeout"]
+        return ["404", "403", "500", "503", "connection-error",
+                "timeout"] + PERSISTENT
     if rng:
-        return list(httpsim.ANSWERS)
+        return list(httpsim.ANSWERS) + PERSISTENT
     return ["404", "403", "500", "503", "short-declared", "empty-declared",
-            "connection-error", "timeout", "broken-mid-body"]
+            "connection-error", "timeout", "broken-mid-body"] + PERSISTENT
 
 
 def judge_fault(col, case, ds, ref_out, out, devs, log, marks):
@@ -220,6 +250,25 @@ def judge_fault(col, case, ds, ref_out, out, devs, log, marks):
                     col.violation("C14/fault/open-raised-other-exception/"
                                   + res[1], c2, "accessor or "
                                   "DataAccessError", res)
+            continue
+        if isinstance(op, tuple) and op[0] == "again":
+            # the server is healthy again: the same accessor object must
+            # now give what a fresh one gives
+            w2 = refd.get(repr(("chunk",) + tuple(op[1:]))
+                          if op[1] != "info" else repr("info"))
+            if out[0][1] != ref_out[0][1]:
+                # the fault made the dispatch choose another accessor class
+                # (a truthful consequence of what the server said then)
+                continue
+            if w2 is not None and (res[0] != w2[0] or (
+                    res[0] == "ok" and res[1] != w2[1])):
+                ok = False
+                col.violation(
+                    "C14/fault/accessor-does-not-recover-after-a-transient-"
+                    "failure/" + ("error" if res[0] == "error" else
+                                  "wrong-bytes"), c2,
+                    "the fault-free result once the server answers again",
+                    res if res[0] == "error" else res[1][:40].hex())
             continue
         if res[0] == "error":
             if plain and res[1] != "DataAccessError":
@@ -371,7 +420,8 @@ def explore_dataset(col, ds, tier):
         for devs in runs:
             case = dict(base_case, url=url,
                         deviations={str(k): a for k, a in devs.items()})
-            out, log, marks = run_history(url, chunks, srv, devs)
+            out, log, marks = run_history(url, chunks, srv, devs,
+                                          recover=True)
             col.r["transitions"] += len(log)
             col.r["states"] += len(log)
             col.r["traces"] += 1
@@ -578,7 +628,8 @@ def replay(case):
                     and not r["case"].get("deviations")
                     and r["case"].get("op") == case.get("op")]
         ref_out, ref_log, ref_marks = run_history(URLS[0], chunks, srv, {})
-        out, log, marks = run_history(case["url"], chunks, srv, devs)
+        out, log, marks = run_history(case["url"], chunks, srv, devs,
+                                      recover=True)
         judge_fault(col, {"dataset": ds, "url": case["url"],
                           "deviations": case["deviations"]}, ds, ref_out,
                     out, devs, log, marks)
